@@ -599,8 +599,19 @@ class OscarLoader(BaseLoader):
         data: List[Particle] = []
         num_read_lines = self.__get_num_read_lines()
         cut_events = 0
+        first_event = 0
         with open(self.PATH_OSCAR_, "r") as oscar_file:
             self._skip_lines(oscar_file)
+            # Keep only the rows of the events that are read, such that the
+            # n-th event read is described by row n also when it is filtered
+            if "events" in self.optional_arguments_.keys():
+                if isinstance(kwargs["events"], int):
+                    first_event = last_event = kwargs["events"]
+                else:
+                    first_event, last_event = kwargs["events"]
+                self.num_output_per_event_ = self.num_output_per_event_[
+                    first_event : last_event + 1
+                ]
             for i in range(0, num_read_lines):
                 line = oscar_file.readline()
                 if not line:
@@ -626,7 +637,7 @@ class OscarLoader(BaseLoader):
                         )[0]
                         if len(data) != 0 or old_data_len == 0:
                             self.num_output_per_event_[len(particle_list)] = (
-                                len(particle_list),
+                                first_event + len(particle_list),
                                 len(data),
                             )
                         else:
@@ -671,16 +682,8 @@ class OscarLoader(BaseLoader):
                     + "number of events specified by the comments in the "
                     + "OSCAR file!"
                 )
-        elif isinstance(kwargs["events"], int):
-            update = self.num_output_per_event_[kwargs["events"]]
-            self.num_output_per_event_ = np.array([update])
-            self.num_events_ = int(1)
-        elif isinstance(kwargs["events"], tuple):
-            event_start = kwargs["events"][0]
-            event_end = kwargs["events"][1]
-            update = self.num_output_per_event_[event_start : event_end + 1]
-            self.num_output_per_event_ = update
-            self.num_events_ = int(event_end - event_start + 1)
+        else:
+            self.num_events_ = len(particle_list)
 
         if particle_list == []:
             particle_list = [[]]
